@@ -616,7 +616,7 @@ def scenario(c, W, exe_lines, spec, tag, stats):
                     mirror = (b, a, tabhex[(-im[0] + 1) * 9 + (-im[1] + 1) * 3 + (-im[2] + 1)])
                 if mirror is None or mirror not in rset:
                     if col == "tree" and not spec.get("r_after_add") and spec["boundary"] != "shear":
-                        c.corr_break("tree search misses pair (%d,%d) of the model's direct search although max_radius bounds hold (%s)" % (a, b, tag),
+                        c.corr_break("tree search misses pair (%d,%d) of the model's direct search from both ends although every radius was given to reb_simulation_add (%s)" % (a, b, tag),
                                      dict(spec=spec, pair=[a, b]))
                         stats["tie_fail"] += 1
                     stats["tree_pruned_pairs"] += 1
